@@ -86,6 +86,10 @@ def run_traj(key):
     try:
         final = M.fit(model, data, init, n, **opts)
     except Exception as e:  # noqa
+        if 'ill-defined empirical covariance' in str(e):
+            # EM of a Gaussian family collapsed a class onto too few points: the covariance guard of
+            # the library (Cholesky of a singular matrix) is a numerical guard in the sense of C02
+            return trivial('Gaussian covariance guard active (class collapsed)')
         return viol(f'{model}{fopts}: fit raised on data in general position: {e!r}')
     finally:
         _verif.clear()
